@@ -1,30 +1,27 @@
 (* The command-line wrappers calculate_scores.main and select_next_plate.main (and argument_parsing.
    get_prng_from_seed_argument): the hand-written models of Model/Cli.v equal the translations of the WHOLE
    functions of /repo, regenerated on every run (Generated/SrcCli.v, by harness/py2gal.py with the configurations
-   CLI_* of harness/src_functions.py), for every record of library functions and all parsed arguments. *)
+   CLI_* of harness/src_functions.py), for every record of library functions and all parsed arguments.
+
+   Each link is proved in its own file (Proofs/C06SourceCli_Prng.v, C06SourceCli_Scores.v, C06SourceCli_Select.v), which is what the
+   links of the OTHER wrappers import (every main() calls get_prng_from_seed_argument; none calls another main()), so that they do
+   not depend on the translations of these two wrappers.  This file states the three together, for Props/C06.v and Props/C18.v. *)
 From Coq Require Import ZArith List Bool Lia.
-From Batchie Require Import Lib.Sexp Lib.PyRt Model.Cli Generated.SrcCli Proofs.PyRtLemmas.
+From Batchie Require Import Lib.Sexp Lib.PyRt Model.Cli Generated.SrcCli Proofs.PyRtLemmas
+  Proofs.C06SourceCli_Prng Proofs.C06SourceCli_Scores Proofs.C06SourceCli_Select.
 Import ListNotations.
 Open Scope Z_scope.
 
 Theorem src_get_prng_is_model : forall (mix : Z -> Z) (seed : Z),
   src_get_prng_from_seed_argument mix seed = prng_of_seed mix seed.
-Proof. intros. reflexivity. Qed.
+Proof. exact C06SourceCli_Prng.src_get_prng_is_model. Qed.
 
 Theorem src_cli_calculate_scores_is_model :
   forall (Scr Pl Th Dm Sc H : Type) (L : cs_lib Scr Pl Th Dm Sc H) (mix : Z -> Z) (a : cs_args),
   src_cli_calculate_scores Scr Pl Th Dm Sc H L mix a = cli_calculate_scores L mix a.
-Proof.
-  intros. unfold src_cli_calculate_scores, cli_calculate_scores. cbv zeta.
-  rewrite !res_map_all_ret, src_get_prng_is_model.
-  repeat cli_step.
-Qed.
+Proof. exact C06SourceCli_Scores.src_cli_calculate_scores_is_model. Qed.
 
 Theorem src_cli_select_next_plate_is_model :
   forall (Scr Pl Po H : Type) (L : sn_lib Scr Pl Po H) (mix : Z -> Z) (a : sn_args),
   src_cli_select_next_plate Scr Pl Po H L mix a = cli_select_next_plate L mix a.
-Proof.
-  intros. unfold src_cli_select_next_plate, cli_select_next_plate. cbv zeta.
-  rewrite !res_map_all_ret, src_get_prng_is_model.
-  repeat cli_step. all: reflexivity.
-Qed.
+Proof. exact C06SourceCli_Select.src_cli_select_next_plate_is_model. Qed.
